@@ -274,6 +274,14 @@ pub fn run_case(o: &mut Obs, spec: &WSpec, ops: &[WOp], path: usize, use_writer:
             WOp::UninitOoc(how) => {
                 let c = root.chunk_mut();
                 let n = c.len();
+                // in-contract surface first: Debug, immutable indexing, raw views
+                let dbg = format!("{:?}", c);
+                let half = (&*c)[..n / 2].len();
+                let raw = unsafe { c.as_uninit_slice_mut().len() };
+                if !dbg.contains("UninitSlice") || half != n / 2 || raw != n || (&mut c[n / 2..]).len() != n - n / 2 {
+                    viol(o, spec, "uninit-slice-surface", case, "UninitSlice Debug / Index / as_uninit_slice_mut disagree with len()");
+                    return crate::rng::fnv_u64(dg, 15);
+                }
                 let r = match how % 5 {
                     0 => catch(|| c.write_byte(n, 0x99)),
                     1 => catch(|| c.copy_from_slice(&vec![0x99u8; n + 1])),
@@ -394,6 +402,17 @@ pub fn run_case(o: &mut Obs, spec: &WSpec, ops: &[WOp], path: usize, use_writer:
             }
         }
         root = w.into_inner();
+    }
+    // the by-reference accessors must show the same inner state as the adapter reports
+    {
+        let rm = root.remaining_mut();
+        let pk = root.peek();
+        o.add("accessor_checks", pk.len() as u64);
+        let bad = pk.iter().any(|(a, b)| a != b) || (pk.len() == 2 && pk[0].0.saturating_add(pk[1].0) != rm) || (pk.len() == 1 && pk[0].0 < rm);
+        if bad {
+            viol(o, spec, "accessors", case, &format!("get_ref/get_mut (first_ref/last_ref) report remaining_mut {pk:?} but the adapter reports {rm}"));
+            return crate::rng::fnv_u64(dg, 13);
+        }
     }
     // take the tree apart and look at every leaf
     let mut states = Vec::new();
